@@ -1,7 +1,9 @@
-"""Plug-in commands for the line-number engine: a producer whose value does not match its declared kind, and a
-command whose execute() raises a foreign exception that carries a line number of its own."""
+"""Plug-in commands for the line-number engine: a producer whose value does not match its declared kind, a
+command whose execute() raises a foreign exception that carries a line number of its own, and a command that accepts
+undeclared inputs (allow_extra_inputs) and can report a problem of its own at the line it starts on."""
 from mpilot import params
 from mpilot.commands import Command
+from mpilot.exceptions import ParameterNotValid
 
 
 class BadData(Command):
@@ -20,3 +22,14 @@ class ForeignLineno(Command):
         exc = ValueError("malformed side file")
         exc.lineno = 1            # e.g. json.JSONDecodeError / SyntaxError carry the line of *their* input
         raise exc
+
+
+class Passthrough(Command):
+    allow_extra_inputs = True
+    inputs = {"InFieldName": params.ResultParameter(params.DataParameter())}
+    output = params.DataParameter()
+
+    def execute(self, **kwargs):
+        if kwargs.get("Fail"):
+            raise ParameterNotValid(kwargs["Fail"], "a setting this command can work with", lineno=self.lineno)
+        return kwargs["InFieldName"].result
